@@ -48,6 +48,14 @@ def make_spec(stream, rng, edge_index=None):
         pairing = {"contended": None, "dynamic": "dynamic", "batch": "batch", "overlap": None,
                    "dynamic-reuse": "dynamic"}[stream]
         spec = simgen.gen_spec(rng, pairing=pairing)
+        if stream == "batch" and rng.random() < 0.35:
+            # observations of 1-2 steps: the reservation is made in the step the ingest machines come back
+            for o in spec["observations"]:
+                o["duration"] = rng.choice([1, 1, 2])
+                o["ingest_demand"] = max(1, min(spec["max_ingest"], len(spec["machines"]), o["ingest_demand"] + rng.choice([0, 1])))
+            tot = sum(o["rate"] * o["duration"] for o in spec["observations"])
+            spec["hot"]["capacity"] = int(tot / 0.6) + 5
+            spec["cold"]["capacity"] = spec["hot"]["capacity"] + 5
         # squeeze: few machines, observations close together, wide workflows
         if stream != "batch" or rng.random() < 0.5:
             t = rng.choice([0, 1])
@@ -213,7 +221,7 @@ def make_spec(stream, rng, edge_index=None):
         spec["delay"] = None
         obs = spec["observations"]
         kinds = ["threshold", "handover", "threshold2", "hotfit", "coldfit", "machines", "ingestlimit", "arrays", "rate",
-                 "coldshort"]
+                 "coldshort", "ingestlimit3", "ratefrac"]
         which = kinds[edge_index % len(kinds)] if edge_index is not None else rng.choice(kinds)
         obs.sort(key=lambda o: o["start"])
         if len(obs) < 2 and which in ("threshold2", "hotfit", "ingestlimit", "arrays", "handover"):
@@ -278,6 +286,29 @@ def make_spec(stream, rng, edge_index=None):
             a["ingest_demand"] = 1
             b["ingest_demand"] = nm - 1
             spec["max_ingest"] = nm
+        elif which == "ingestlimit3":
+            # one observation ingesting, two more falling due in the same step: each fits the limit with the
+            # running one, both together do not (machines, arrays and buffer suffice for all three)
+            wf = lambda: simgen.gen_workflow(rng, 3, [m["flops"] for m in spec["machines"]])
+            lim = rng.choice([2, 2, 3])
+            da = rng.randint(1, lim - 1)
+            db = dc = lim - da
+            t0 = rng.choice([0, 1])
+            k = rng.randint(1, 3)
+            a = dict(obs[0], name="a", start=t0, duration=k + rng.randint(3, 5), ingest_demand=da, workflow=wf())
+            b = dict(obs[0], name="b", start=t0 + k, duration=rng.randint(1, 3), ingest_demand=db, workflow=wf())
+            c = dict(obs[0], name="c", start=t0 + k, duration=rng.randint(1, 3), ingest_demand=dc, workflow=wf())
+            spec["observations"] = obs = [a, b, c]
+            for o in obs:
+                o["demand"] = 1
+                o["rate"] = max(1, min(o["rate"], 3))
+            spec["total_arrays"] = 3
+            spec["max_ingest"] = lim
+            need = da + db + dc + 1
+            while len(spec["machines"]) < need:
+                spec["machines"].append({"id": "mx%d" % len(spec["machines"]), "flops": 10, "bw": 2})
+            nm = len(spec["machines"])
+            spec["hot"]["rate"] = max(spec["hot"]["rate"], 3)
         elif which == "arrays" and len(obs) >= 2:
             a, b = obs[0], obs[1]
             b["start"] = a["start"] + 1
@@ -287,6 +318,11 @@ def make_spec(stream, rng, edge_index=None):
             spec["total_arrays"] = a["demand"] + b["demand"]
         elif which == "rate":
             spec["hot"]["rate"] = max(o["rate"] for o in obs)
+        elif which == "ratefrac":
+            # a fractional (binary-exact) data rate just above / at / below the hot tier's maximum ingest rate:
+            # the parser rounds it to a whole number, and a rate above the maximum is refused with an error
+            spec["hot"]["rate"] = max(1, max(o["rate"] for o in obs))
+            obs[-1]["rate"] = spec["hot"]["rate"] + rng.choice([0.75, 0.25, -0.25, 0.5])
         elif which == "handover" and len(obs) >= 2:
             # x starts in exactly the step y finishes, fills the telescope, and is listed first
             y, x = obs[0], obs[1]
